@@ -4,20 +4,90 @@ Model/Matrix.v evaluated in Coq; hom_ok evaluated in Coq for every explored alge
 implementation: (x*y).asmatrix() = x.asmatrix() @ y.asmatrix() for all blade pairs / random sparse
 operands, linearity, first column, frommatrix inverts; expr_as_matrix(f, .., x): A . coefficients(x) =
 coefficients(f(.., x)) for linear operator expressions with symbolic, numeric and array-valued other
-inputs and res_like (expr_as_matrix is NOT modelled: exploration only, labelled so in the evidence)."""
+inputs and res_like.  expr_as_matrix with a SYMBOLIC other input is also compared with Model/ExprMatrix.v
+inside Coq (clause expr_as_matrix-model): y = f(R, x) computed by the harness and the (A, y) the
+implementation returned are read term by term (sympy.expand + Poly.terms, exact rationals Qc; a float
+0.5 / 0.25 is read exactly with fractions.Fraction; the inverse 1/(R1**2 + ..) of R.inv() is read as one
+further opaque symbol) and `eam_case_Qc res_like x yfull A_impl y_impl` checks: same keys in the same
+order, same coefficients, A_impl = expr_matrix entry by entry as canonical polynomials, and row i of
+A_impl times x IS y_i as a canonical polynomial (C18_expr_as_matrix_check_sound: a passing case means
+A_impl . x = y_impl at EVERY rational valuation).  A disagreement is a violation only with a concrete
+rational valuation on which the implementation's A . x != y (or y != f(.., x)); otherwise a fidelity note."""
 import warnings, itertools
 import kv, algs, opcorr as oc
 
 RULE = ('all signature orderings d<=3 (quick; d<=4 thorough, sampled d=5) with random start index: matrix_basis entry by entry, asmatrix / '
         'frommatrix of random sparse integer multivectors, all blade pairs for the homomorphism oracle; custom bases (named algebras, '
-        'random); expr_as_matrix for 8 linear expression forms x {symbolic, numeric, array-valued} other input x res_like.  '
-        'Non-trivial = d >= 1; distinct = distinct (algebra, observation).')
-TRUSTED = ['Model/Matrix.v (hand-written after matrixreps.py) tied by this correspondence', 'numpy kron/matmul', 'expr_as_matrix: sympy collect/coeff/lambdify are not modelled']
-ASSUMPTIONS = ['integer matrices compared exactly', 'expr_as_matrix is checked by direct evaluation at random rational points only']
+        'random); expr_as_matrix for 13 linear expression forms x {symbolic, numeric, array-valued} other input x {no res_like, res_like = '
+        '1-4 random canonical keys in random order, also keys the result does not store}: every form once with a symbolic and once with an '
+        'integer other input, then random (form, signature d in {2,3}, grade of x, grades of R); every symbolic case is additionally read '
+        'into term lists and compared with Model/ExprMatrix.v in Coq (matrix entry by entry, returned y, row identity as polynomials).  '
+        'Non-trivial = d >= 1; distinct = distinct (algebra, observation) / (iteration, form, kind, grades).')
+TRUSTED = ['Model/Matrix.v (hand-written after matrixreps.py) tied by this correspondence', 'numpy kron/matmul',
+           'expr_as_matrix: Model/ExprMatrix.v (hand-written after matrixreps.expr_as_matrix, pinned in Bridge/Pins_C18.v) tied by the expr_as_matrix-model '
+           'correspondence; sympy.expand / sympy.Poly(..).terms() / fractions.Fraction are used to READ the implementation\'s expressions (y, A) into '
+           'term lists; an inverse base**(-n) is read as the n-th power of one opaque symbol per distinct base',
+           'expr_as_matrix with numeric / array-valued other inputs: sympy collect/coeff/lambdify are not modelled (direct oracle only; '
+           'C18_expr_as_matrix_expression proves that the symbolic matrix evaluated at the values is the numeric result)']
+ASSUMPTIONS = ['integer matrices compared exactly', 'expr_as_matrix with numeric / array-valued inputs is checked by direct evaluation at random rational points only',
+               'sympy.collect only regroups a sum that is linear in x (Model/ExprMatrix.v models `.coeff` on the expanded sum); compared entry by entry on every symbolic case']
 
 
 def mat_term(M):
     return kv.blist(kv.zlist(int(v) for v in row) for row in M)
+
+
+# ----------------------------------------------------------------------------- expr_as_matrix: reading sympy expressions
+class Unreadable(Exception):
+    """an expression that is not a polynomial with rational coefficients in the symbols (and inverse bases)"""
+
+
+def read_polys(exprs, xsyms):
+    """exprs: sympy expressions (coefficients of y, entries of A).  Returns (gens, [term list per expression]) with a
+    term = (Fraction, exponent tuple over gens); gens = x symbols first, then the other symbols by name, then one fresh
+    symbol per distinct base of a negative power (R.inv() gives 1/(R1**2 + ..): the inverse is read as an opaque
+    indeterminate, the same one in every expression).  Trusted: sympy.expand / Poly.terms READ the expressions."""
+    import sympy
+    from fractions import Fraction
+    exps = [sympy.expand(sympy.sympify(e)) for e in exprs]
+    inv = {}
+    def neg_pow(t):
+        return t.is_Pow and t.exp.is_Integer and t.exp.is_negative and not t.base.is_Number
+    for e in exps:
+        for t in e.atoms(sympy.Pow):
+            if neg_pow(t):
+                if t.base.free_symbols & set(xsyms):
+                    raise Unreadable('x in a denominator')
+                inv.setdefault(t.base, sympy.Dummy('inv%d' % len(inv)))
+    exps = [sympy.expand(e.replace(neg_pow, lambda t: inv[t.base] ** (-t.exp))) for e in exps]
+    others = sorted(set().union(*[e.free_symbols for e in exps]) - set(xsyms) - set(inv.values()), key=lambda v: v.name)
+    gens = list(xsyms) + others + list(inv.values())
+    out = []
+    for e in exps:
+        try:
+            terms = sympy.Poly(e, *gens).terms()
+        except Exception as ex:  # noqa  (PolynomialError, GeneratorsNeeded, ...)
+            raise Unreadable(f'{type(ex).__name__}')
+        tl = []
+        for expo, c in terms:
+            c = sympy.sympify(c)
+            if c.is_Rational:
+                q = Fraction(int(c.p), int(c.q))
+            elif c.is_Float:
+                q = Fraction(float(c))          # exact value of the binary float (0.5, 0.25)
+            else:
+                raise Unreadable(f'coefficient {c}')
+            if q != 0:
+                tl.append((q, tuple(int(k) for k in expo)))
+        out.append(tl)
+    return gens, out
+
+
+def xpoly_term(terms):
+    """term list -> Gallina term : xpolyQ (symbols with multiplicity, numbered by their position in gens)"""
+    def syms(expo):
+        return kv.natlist(i for i, k in enumerate(expo) for _ in range(k))
+    return '(' + kv.blist(f'(qc {kv.Z(q.numerator)} {int(q.denominator)}, {syms(expo)})' for q, expo in terms) + ' : xpolyQ)'
 
 
 def run(R, tier):
@@ -102,11 +172,12 @@ def run(R, tier):
              ('0.5 * (R * x)', lambda Rm, x: 0.5 * (Rm * x)), ('(x * R) / 4', lambda Rm, x: (x * Rm) / 4),
              ('(R | x) * R', lambda Rm, x: (Rm | x) * Rm), ('R * (x | R)', lambda Rm, x: Rm * (x | Rm)),
              ('-R * x * R.inv()', lambda Rm, x: -Rm * x * Rm.inv())]   # reflection in an unnormalised vector: fractions from integer inputs   # rows with a common symbolic factor   # non-integer entries from integer inputs
+    eam_cases = []
     for it in range(44 if tier == 'quick' else 240):
         d = rng.choice((2, 3))
         alg = algs.make_impl({'sig': [rng.choice((1, 1, -1, 0)) for _ in range(d)]})
         name, f = rng.choice(forms)
-        kind = rng.choice(['symbolic', 'numeric', 'array'])
+        kind = rng.choice(['symbolic', 'symbolic', 'numeric', 'array'])
         gx = rng.randint(0, d)
         if it < 2 * len(forms):           # every form once with a symbolic and once with an integer-valued other input and a vector x (deterministic part)
             name, f = forms[it % len(forms)]
@@ -127,6 +198,10 @@ def run(R, tier):
         else:
             Rm = alg.multivector([np.array([float(rng.randint(-3, 3) or 1), float(rng.randint(-3, 3) or 2)]) for _ in range(nR)], grades=gR)
         res_like = None
+        if it >= 2 * len(forms) and rng.random() < 0.5:      # only some canonical keys, in any order, also keys y does not store
+            rk = rng.sample(list(alg.canon2bin.values()), rng.randint(1, min(4, 2 ** d)))
+            res_like = alg.multivector(keys=tuple(rk), values=[1] * len(rk))
+            R.count('expr_as_matrix:res_like')
         R.count('expr_as_matrix:' + kind); R.case(('eam', it, name, kind, gx, gR), True,
                                                   sample={'clause': 'expr_as_matrix', 'expression': name, 'other input': kind, 'x grade': gx, 'R grades': list(gR)})
         try:
@@ -134,6 +209,31 @@ def run(R, tier):
         except Exception as e:  # noqa
             viol('expr_as_matrix-raises', f'expr_as_matrix({name}) with a {kind} R raised {type(e).__name__}: {e}'[:300], expression=name, kind=kind)
             continue
+        if kind == 'symbolic':
+            # the model: y = expr(inputs) computed by the harness, (A, y) of the implementation read term by term
+            try:
+                yfull = f(Rm, x)
+                xsyms = list(x.values())
+                flatA = [A[i, j] for i in range(A.shape[0]) for j in range(A.shape[1])]
+                gens, polys = read_polys(list(yfull.values()) + list(y.values()) + flatA, xsyms)
+                nf, ny = len(yfull), len(y)
+                pf, py, pA = polys[:nf], polys[nf:nf + ny], polys[nf + ny:]
+                ncol = len(xsyms)
+                rl = 'None' if res_like is None else f'(Some {kv.zlist(res_like.keys())})'
+                xt = kv.blist(kv.pair(kv.Z(k), kv.nat(j)) for j, k in enumerate(x.keys()))
+                def mvt(keys, ps):
+                    return '(' + kv.blist(kv.pair(kv.Z(k), xpoly_term(tl)) for k, tl in zip(keys, ps)) + ' : mv xpolyQ)'
+                At = '(' + kv.blist(kv.blist(xpoly_term(pA[i * ncol + j]) for j in range(ncol)) for i in range(A.shape[0])) + ' : list (list xpolyQ))'
+                eam_cases.append({'check': f'eam_case_Qc {rl} {xt} {mvt(yfull.keys(), pf)} {At} {mvt(y.keys(), py)}',
+                                  'meta': {'expression': name, 'it': it, 'A': A, 'y': y, 'x': x, 'yfull': yfull,
+                                           'res_like': None if res_like is None else list(res_like.keys()), 'alg': alg}})
+                R.count('expr_as_matrix-model:cases' + ('' if res_like is None else ' with res_like'))
+                if any(sum(e[:ncol]) != 1 for tl in py for _, e in tl):
+                    R.count('expr_as_matrix-model:not linear')        # the row identity is then not asked for
+                if len(gens) > ncol + nR:
+                    R.count('expr_as_matrix-model:inverse read as a symbol')
+            except Unreadable as e:
+                R.count(f'expr_as_matrix-model:unreadable ({e})')
         vals = {s: sympy.Rational(rng.randint(-5, 5), rng.randint(1, 3)) for s in set().union(*[getattr(v, 'free_symbols', set()) for v in list(x.values()) + (list(Rm.values()) if kind == 'symbolic' else [])])}
         xv = [sympy.sympify(v).subs(vals) for v in x.values()]
         try:
@@ -167,6 +267,43 @@ def run(R, tier):
         m = cases[i]['meta']
         R.violation({'clause': 'model', 'basis': 'default'}, {'algebra': m['spec'], 'observation': m['obs']},
                     f'{m["obs"]} in Algebra({algs.describe(m["spec"])}) differs from Model/Matrix.v (or hom_ok is false)')
+
+
+    # expr_as_matrix against Model/ExprMatrix.v: eam_case_Qc evaluated in Coq on exact rationals
+    bad, shown = kv.run_cases('C18eam', eam_cases, imports='Model.All Model.ExprMatrix', shard=40)
+    for i in bad:
+        m = eam_cases[i]['meta']
+        A, y, x, yfull, alg = m['A'], m['y'], m['x'], m['yfull'], m['alg']
+        syms = sorted(set().union(*[sympy.sympify(v).free_symbols for v in list(yfull.values()) + list(y.values()) + list(A)]), key=lambda v: v.name)
+        want_keys = list(yfull.keys()) if m['res_like'] is None else m['res_like']
+        want = {k: sympy.sympify(getattr(yfull, alg.bin2canon[k])) for k in want_keys}      # expr(inputs), restricted to the requested blades
+        witness = None
+        if set(y.keys()) != set(want_keys) or len(y.keys()) != len(want_keys):
+            witness = f'y stores the blades {list(y.keys())}, the requested / computed blades are {want_keys}'
+        for _ in range(20):
+            if witness:
+                break
+            vals = {sy: sympy.Rational(rng.randint(-7, 7), rng.randint(1, 4)) for sy in syms}
+            try:
+                yv = [sympy.nsimplify(sympy.sympify(v).subs(vals)) for v in y.values()]
+                wv = [sympy.nsimplify(want[k].subs(vals)) for k in y.keys()]
+                lhs = [sympy.nsimplify(v) for v in (sympy.Matrix(A).subs(vals) * sympy.Matrix([sympy.sympify(v).subs(vals) for v in x.values()]))] if len(A) else []
+                if not all(v.is_finite for v in yv + wv + lhs):
+                    continue
+            except Exception:  # noqa  (a zero denominator at this point)
+                continue
+            if len(lhs) != len(yv) or any(sympy.simplify(a - b) != 0 for a, b in zip(lhs, yv)):
+                witness = f'A.x = {lhs} but y = {yv} at {vals}'
+            elif any(sympy.simplify(a - b) != 0 for a, b in zip(yv, wv)):
+                witness = f'the returned y = {yv} on the blades {list(y.keys())} but expr(inputs) = {wv} there, at {vals}'
+        if witness:
+            R.violation({'clause': 'expr_as_matrix-model', 'expression': m['expression']},
+                        {'expression': m['expression'], 'iteration': m['it'], 'res_like': m['res_like']},
+                        f'expr_as_matrix-model: expr_as_matrix({m["expression"]}, R, x{"" if m["res_like"] is None else ", res_like keys " + str(m["res_like"])}) '
+                        f'differs from Model/ExprMatrix.v and contradicts the property: {witness}'[:600])
+        else:
+            R.fidelity_notes += 1       # finer than the property (a different but equal form of an entry)
+            R.count('expr_as_matrix-model:differs without a witness')
 
 
 REPLAY_BY_RERUN = True      # inputs derive from the seed recorded in the replay file: the recorded run is regenerated
